@@ -838,3 +838,29 @@ def b_chain(ex, path, ca, node):
     path.store("iter.len", it.e, m + n)
     path.store("iter.pos", it.e, z3.IntVal(0))
     return [(path, it)]
+
+
+@model
+def dict_update(ex, path, d, ca, node):
+    """d.update(other) for str-keyed dicts: other's entries win."""
+    o = ca.pos[0]
+    has, val = path.sel("dict.has", d.e), path.sel("dict.val", d.e)
+    oh, ov = path.sel("dict.has", o.e), path.sel("dict.val", o.e)
+    nh, nv = fresh("upd_has", has.sort()), fresh("upd_val", val.sort())
+    k = fresh("k", Str)
+    path.assume(z3.ForAll([k], z3.And(
+        z3.Select(nh, k) == z3.Or(z3.Select(has, k), z3.Select(oh, k)),
+        z3.Select(nv, k) == z3.If(z3.Select(oh, k), z3.Select(ov, k), z3.Select(val, k)))))
+    path.store("dict.has", d.e, nh)
+    path.store("dict.val", d.e, nv)
+    return [(path, NoneV())]
+
+
+@model
+def dict_keys(ex, path, d, ca, node):
+    """dict.keys() of an opaque-keyed dict used only to be forwarded: an opaque view object."""
+    return [(path, O(d.e, "Val"))]
+
+
+CLASSES["dict"].methods["update"] = dict_update
+CLASSES["dict"].methods["keys"] = dict_keys
